@@ -294,6 +294,10 @@ def run(prog: Program, res: Result) -> None:
     check_uptodate_is_bool(prog, res, "C14.R3")
 
     # ------------------------------------------------------------------ R4 LRU shape
+    res.rule("C14.R6", "a cached Template carries no state of its own between callers: the caching loaders rebind global_data on every hit, so whatever a Template method derives from it (the globals chain of make_globals) is built at each call - no method of Template other than the constructor stores to self")
+    from checks.shared import check_no_self_stores
+
+    check_no_self_stores(prog, res, "C14.R6", ("liquid2.template.Template",), "a Template handed out by a caching loader is shared by every caller, and its global_data is rebound on each cache hit; a value memoised on the instance (the merged globals of a render without arguments) keeps pointing at an earlier caller's data", 20)
     res.rule("C14.R4", "LRUCache: _cache touched only inside the LRU classes; reads and writes refresh recency; eviction pops the oldest entry, only when full, only for a new key, before the insert; ThreadSafeLRUCache wraps every accessor under the lock")
     lru = prog.cls("liquid2.utils.lru_cache.LRUCache")
     tlru = prog.cls("liquid2.utils.lru_cache.ThreadSafeLRUCache")
